@@ -46,7 +46,8 @@ class Cell(nn.Module):
       kd = jax.random.key_data(self.make_rng('dropout')).astype(jnp.uint32)
     else:
       kd = jnp.zeros((2,), jnp.uint32)
-    return h, (h * 2.0 + 1.0, kd)
+    # outputs of different ranks (vector, matrix, key data)
+    return h, (h * 2.0 + 1.0, kd, jnp.outer(h, h) if h.ndim == 1 else h[..., None])
 
 
 class VCell(nn.Module):
@@ -134,9 +135,11 @@ def scan_case():
       'prog': body_prog(), 'dim': st.integers(1, 3),
       'length': st.integers(1, 4), 'reverse': st.booleans(),
       'unroll': st.sampled_from([1, 2, 9]),
-      'params_role': st.sampled_from(['axis0', 'axis1', 'broadcast']),
+      'params_role': st.sampled_from(['axis0', 'axis1', 'axis-1',
+                                      'broadcast']),
       'stats_role': role, 'counters_role': role,
-      'in_axis': st.sampled_from([0, 1]), 'out_axis': st.sampled_from([0, 1]),
+      'in_axis': st.sampled_from([0, 1]),
+      'out_axis': st.sampled_from([0, 1, -1]),
       'use_b': st.booleans(),
       'split_params': st.booleans(), 'split_dropout': st.booleans(),
       'mutable': st.lists(st.sampled_from(STATE), max_size=2, unique=True),
@@ -145,7 +148,9 @@ def scan_case():
 
 
 def role_axis(role):
-  return {'axis0': 0, 'axis1': 1}.get(role)
+  # 'axis-1': unboxed values stacked on the last dimension (the C19 known
+  # finding concerns the *names* of boxed variables, not plain values)
+  return {'axis0': 0, 'axis1': 1, 'axis-1': -1}.get(role)
 
 
 def build_scan(case, cols):
@@ -223,7 +228,7 @@ def scan_vs_loop(case, ctx):
     ctx.note(labels=['manual-variables'])
   else:
     with sut('scan init'):
-      (c_i, (ys_i, kd_i)), V = scanned.init_with_output(keys, *args)
+      (c_i, (ys_i, kd_i, ym_i)), V = scanned.init_with_output(keys, *args)
     V = unfreeze(V)
     ctx.note(labels=['scan-init'])
   # --- init tree: plain tree with a length axis at the declared position
@@ -235,7 +240,8 @@ def scan_vs_loop(case, ctx):
     base_shape = np.shape(fp[p])
     if col in variable_axes:
       k = variable_axes[col]
-      exp = base_shape[:k] + (n,) + base_shape[k:]
+      kk = k if k >= 0 else len(base_shape) + 1 + k
+      exp = base_shape[:kk] + (n,) + base_shape[kk:]
       require(np.shape(leaf) == exp, lambda: f'{p}: shape {np.shape(leaf)}, '
               f'expected {exp} (axis {k}, length {n})')
       if col == 'params' and n >= 2 and p[-1] != 'bias' and not carry:
@@ -263,12 +269,13 @@ def scan_vs_loop(case, ctx):
     r = scanned.apply(vin, *args, rngs={'dropout': keys['dropout']},
                       mutable=mutable if mutable else False)
   if mutable:
-    (c_s, (ys_s, kd_s)), upd_s = r
+    (c_s, (ys_s, kd_s, ym_s)), upd_s = r
   else:
-    (c_s, (ys_s, kd_s)), upd_s = r, {}
+    (c_s, (ys_s, kd_s, ym_s)), upd_s = r, {}
   # reference
   c = c0
   ys = [None] * n
+  yms = [None] * n
   carry_state = {col: vin[col] for col in carry}
   axis_out = {col: [None] * n for col in variable_axes}
   order = range(n - 1, -1, -1) if case['reverse'] else range(n)
@@ -288,17 +295,22 @@ def scan_vs_loop(case, ctx):
                      rngs={'dropout': keys['dropout']},
                      mutable=mut_i if mut_i else False)
     if mut_i:
-      (c, (y, _)), upd = rr
+      (c, (y, _, ym)), upd = rr
       upd = unfreeze(upd)
     else:
-      (c, (y, _)), upd = rr, {}
+      (c, (y, _, ym)), upd = rr, {}
     ys[i] = np.asarray(y)
+    yms[i] = np.asarray(ym)
     for col in variable_axes:
       axis_out[col][i] = upd.get(col, v_i[col]) if col in mut_i else v_i[col]
     for col in carry:
       if col in upd:
         carry_state[col] = upd[col]
   ys_ref = np.stack(ys, axis=case['out_axis'])
+  ym_ref = np.stack(yms, axis=case['out_axis'])
+  require(close(ym_s, ym_ref), lambda: f'matrix-valued stacked output has '
+          f'shape {np.shape(ym_s)}, the loop stacked along out_axis='
+          f'{case["out_axis"]} gives {ym_ref.shape} (or values differ)')
   require(close(c_s, c), lambda: f'final carry {np.asarray(c_s)} != loop '
           f'{np.asarray(c)} (reverse={case["reverse"]}, roles={roles})')
   require(close(ys_s, ys_ref), lambda: f'stacked outputs differ from the '
@@ -331,7 +343,8 @@ def scan_vs_loop(case, ctx):
   ctx.note(labels=[f'n{n}', 'rev' if case['reverse'] else 'fwd'] +
            sorted(f'{c}:{roles[c]}' for c in cols),
            nontrivial=(len(used_roles) >= 2 and n >= 2) or case['reverse']
-           or any(a != 0 for a in variable_axes.values()))
+           or any(a != 0 for a in variable_axes.values())
+           or case['out_axis'] != 0)
 
 
 # ----------------------------------------------------------------------------
